@@ -168,6 +168,13 @@ package kfmt
 //@   ensures oldshift: len(p) > 2047 - old(rlen(rb)) ==> forall(j, int, 0 <= j && j < old(rlen(rb)) - dropped(old(rlen(rb)), len(p)) ==> view(rb, j) == old(view(rb, j + dropped(old(rlen(rb)), len(p)))))
 //@   ensures newest: forall(m, int, 0 <= m && m < len(p) && len(p) - m <= 2047 ==> view(rb, rlen(rb) - (len(p) - m)) == p[m])
 
+// the output stream is the ghost log: ASSUMED abstraction of every io.Writer the kernel log is
+// sent to - a Write delivers exactly its slice, in order (byte counts and errors unconstrained)
+//@ func (io.Writer) Write(p []byte) (n int, err error)
+//@   trusted
+//@   modifies outLen, out
+//@   ensures appended(p)
+
 // ---- hand-over of the early log to the first sink (C16) --------------------------------------
 // io.Copy is standard-library code outside the engine's reach (32 KiB scratch allocation, two
 // optional-interface probes); ASSUMED: with the ring buffer as its source it calls Read until
